@@ -410,4 +410,51 @@ def gapOf (av0 : IARF) (forced : Bool) (minSp : Nat) (g : SpGeom) : Nat :=
 def origGap (g : SpGeom) : Nat :=
   if g.origColEnd ≠ 0 ∧ g.nextOrigCol ≥ g.origColEnd then g.nextOrigCol - g.origColEnd else 0
 
+/-! ## (c) a whole line: `space_text()` walks the chunks of a line with a running `column`, then `reindent_line()` shifts the line -/
+
+/-- what `space_text()` reads for one pair, apart from the running column -/
+structure PairIn where
+  av0 : IARF
+  forced : Bool
+  minSp : Nat
+  len : Nat               -- pc->Len()
+  origColEnd : Nat
+  nextOrigCol : Nat
+  isVbraceOpen : Bool
+  prevOrigCol : Nat
+  t : TrCmt
+deriving Repr
+
+def PairIn.geom (p : PairIn) (column : Nat) : SpGeom :=
+  { column := column, len := p.len, nlCount := 0, origColEnd := p.origColEnd, nextOrigCol := p.nextOrigCol,
+    isVbraceOpen := p.isVbraceOpen, prevOrigCol := p.prevOrigCol }
+
+/-- the columns `space_text()` gives to the 2nd, 3rd, ... chunk of a line whose first chunk stands at `c0`
+    (`next->SetColumn(column)` and `column` carried on to the next pair) -/
+def lineCols (c0 : Nat) : List PairIn → List Nat
+  | [] => []
+  | p :: ps =>
+    let c := spaceApply p.av0 p.forced p.minSp (p.geom c0) p.t
+    c :: lineCols c ps
+
+/-- every column of the list is at least `lo` -/
+def allGe (lo : Nat) : List Nat → Bool
+  | [] => true
+  | c :: cs => decide (c ≥ lo) && allGe lo cs
+
+/-- non-decreasing -/
+def mono : List Nat → Bool
+  | [] => true
+  | [_] => true
+  | a :: b :: cs => decide (a ≤ b) && mono (b :: cs)
+
+/-- the SHIFT arm of `reindent_line()` for one following chunk, as written: `max(pc->GetColumn() + col_delta, min_col)` with
+    `col_delta` an `int` added to a `size_t` (wraps modulo 2^64 when the sum is negative) -/
+def shiftWrap (col : Nat) (delta : Int) (minCol : Nat) : Nat :=
+  max (((col : Int) + delta) % (W64 : Int)).toNat minCol
+
+/-- the same arm with the guard of `align_to_column()` ("keep above negative values") -/
+def shiftGuarded (col : Nat) (delta : Int) (minCol : Nat) : Nat :=
+  max (if delta ≥ 0 ∨ (-delta).toNat < col then ((col : Int) + delta).toNat else 0) minCol
+
 end Unc
